@@ -50,8 +50,9 @@ type Engine struct {
 	lockLevels map[string]int    // lock field name -> level
 	guards     map[string]string // guarded field array prefix -> mutex field name
 	immutable  map[string]bool
-	confined   map[string]bool
+	confined   map[string]string
 	eventKinds map[string]bool
+	sweepLoops bool
 }
 
 func loadEngine(repo string) (*Engine, error) {
@@ -80,7 +81,7 @@ func loadEngine(repo string) (*Engine, error) {
 		allTypes: map[string]*types.Package{}, funcSpecs: map[string]*FuncSpec{}, specFns: map[string]*SpecFn{},
 		ufs: map[string]*UFDecl{}, typeSpecs: map[string]*TypeSpec{}, funcs: map[string]*ssa.Function{},
 		staticVals: map[string]Val{}, lockLevels: map[string]int{}, guards: map[string]string{},
-		immutable: map[string]bool{}, confined: map[string]bool{}, eventKinds: map[string]bool{},
+		immutable: map[string]bool{}, confined: map[string]string{}, eventKinds: map[string]bool{},
 	}
 	for i, p := range pkgs {
 		if spkgs[i] == nil {
@@ -241,8 +242,8 @@ func (e *Engine) loadContracts() error {
 			for _, f := range t.Immutable {
 				e.immutable[tn+"."+f] = true
 			}
-			for _, f := range t.Confined {
-				e.confined[tn+"."+f] = true
+			for f, owner := range t.Confined {
+				e.confined[tn+"."+f] = owner
 			}
 		}
 		for _, l := range sf.Lemmas {
